@@ -66,6 +66,9 @@ namespace DFS
       for (int i = 0; (label=labels[i]) != '\0'; ++i)
 	{
 	  const unsigned int track = sector16[offset];
+	  // Each volume has its own two-byte slot in the table, whether
+	  // or not the volume exists.
+	  offset += 2u;
 	  if (track == 0)
 	    continue;
 	  if (geom)
@@ -82,7 +85,6 @@ namespace DFS
 	    }
 	  auto start = DFS::safe_unsigned_multiply(track, sectors_per_track_);
 	  locations_.emplace_back(i*2, start, start, label);
-	  offset += 2u;
 	}
       std::sort(locations_.begin(), locations_.end());
       unsigned long next_sector = total_disc_sectors_;
